@@ -14,6 +14,7 @@ EncodingError: no verdict is ever produced from a partial translation.
 """
 import ast
 import inspect
+import sys
 import textwrap
 import time
 from fractions import Fraction as F
@@ -361,6 +362,17 @@ class Interp:
                     isprop = any(isinstance(d, ast.Name) and d.id == "property" for d in item.decorator_list)
                     (self.props if isprop else self.methods)[(cn, item.name)] = item
         self.globals = {}
+        # module-level numeric / string constants of the real module(s) the encoded objects live in (read from the
+        # imported module, so `_EPS = sys.float_info.epsilon` has the value the real code sees)
+        self.module_consts = {}
+        for obj in namespace.values():
+            g = getattr(obj, "__globals__", None)
+            if g is None:
+                mod = sys.modules.get(getattr(obj, "__module__", ""))
+                g = vars(mod) if mod is not None else {}
+            for k, v in g.items():
+                if isinstance(v, (bool, int, float, str)) and not k.startswith("__"):
+                    self.module_consts.setdefault(k, F(v) if isinstance(v, float) else v)
 
     # -- calling
     def call_function(self, ctx, name, args, kwargs=None):
@@ -530,6 +542,8 @@ class Interp:
             return ("callable", e.id)
         if e.id in MODULES:
             return ("module", e.id)
+        if e.id in self.module_consts:
+            return self.module_consts[e.id]
         raise EncodingError("unknown name %s" % e.id)
 
     def e_Tuple(self, ctx, env, e):
@@ -1043,6 +1057,22 @@ def b_minmax(ismin):
                 x = fp_const(x, sort)
                 out = z3.If(z3.fpLEQ(out, x), out, x) if ismin else z3.If(z3.fpGEQ(out, x), out, x)
             return out
+        if len(a) == 2 and sum(isinstance(x, SymReal) for x in a) == 1:
+            s_, c_ = (a[0], a[1]) if isinstance(a[0], SymReal) else (a[1], a[0])
+            c_ = num(c_)
+            if not is_z3(c_):
+                c_ = F(c_)
+                takes_s = ctx.branch((s_.t <= c_) if ismin else (s_.t >= c_))
+                if takes_s:
+                    return s_
+                if c_ == 0:
+                    return c_
+                dec = 0
+                while F(10) ** dec > abs(c_):
+                    dec -= 1
+                while F(10) ** (dec + 1) <= abs(c_):
+                    dec += 1
+                return SymReal(z3.RealVal(str(c_)), dec, 1 if c_ > 0 else -1)
         out = num(a[0])
         for x in a[1:]:
             x = num(x)
@@ -1089,6 +1119,11 @@ def b_isinstance(I, ctx, v, t):
     name = t[1] if isinstance(t, tuple) else t
     if name == "int":
         return is_int_like(v)
+    if name in ("np.ndarray", "numpy.ndarray", "ndarray"):
+        # the kernels feed chunks as Python lists unless a Vec / Mat model of an ndarray is passed explicitly
+        return isinstance(v, (Vec, Mat))
+    if name in ("list", "tuple") and isinstance(v, (list, tuple)):
+        return isinstance(v, list if name == "list" else tuple)
     raise EncodingError("isinstance(%r)" % (name,))
 
 
